@@ -5,6 +5,7 @@ package queuebatch
 import (
 	"context"
 	"os"
+	"runtime"
 	"sync/atomic"
 	"testing"
 	"testing/synctest"
@@ -73,6 +74,7 @@ func TestVerifC02Persistent(t *testing.T) {
 	out := vOpen(t)
 	defer out.Close()
 	out.Linef("model c02-persistent 1")
+	defer runtime.GOMAXPROCS(runtime.GOMAXPROCS(1))
 	n := vN(1000)
 	var progress atomic.Int64
 	stop := make(chan struct{})
